@@ -332,7 +332,65 @@ func checkC07(c *Ctx) {
 			r.Unk("C07.4", "parseRegMessage: two per-family constructions", p.Pos(), fnName(p), fmt.Sprintf("found %d", n))
 		}
 	}
-	if w := c.fn("C07.4", lib, "RegistrationManager", "NewRegistrationC2SWrapper"); w != nil {
+	checkFamilyRejection(c, "C07.4")
+
+	// ---- C07.5 error discipline
+	r.Rule("C07.5", "NewRegistration succeeds only if every derivation succeeded", 5)
+	if n := c.fn("C07.5", lib, "RegistrationManager", "NewRegistration"); n != nil {
+		var okRet *ssa.Return
+		eachInstr(n, func(in ssa.Instruction) {
+			if ret, ok := in.(*ssa.Return); ok && len(ret.Results) == 2 {
+				if cst, isC := ret.Results[1].(*ssa.Const); isC && cst.Value == nil {
+					okRet = ret
+				}
+			}
+		})
+		if okRet == nil {
+			r.Unk("C07.5", "NewRegistration: success return", n.Pos(), fnName(n), "not found")
+		} else {
+			for _, name := range []string{"Select", "getTransportParams", "getPhantomDstPort", "getTransportProto"} {
+				var call *ssa.Call
+				for _, ci := range callsIn(n, shortIs(name)) {
+					call = ci.(*ssa.Call)
+				}
+				if call == nil {
+					r.Bad("C07.5", "NewRegistration: does not call "+name, n.Pos(), fnName(n), "the registration is built without "+name)
+					continue
+				}
+				r.Check(guarded(n, okRet, errAtoms(call, true)...), "C07.5", "NewRegistration: success only if "+name+" returned no error", okRet.Pos(), fnName(n), "dominated by err == nil",
+					"the error of "+name+" is ignored: a registration with a zero/garbage phantom, port or parameters becomes usable")
+			}
+			r.Check(guarded(n, okRet, Atom{"rm.registeredDecoys.transports[c2s.GetTransport()]#1", true}), "C07.5", "NewRegistration: success only for a known transport", okRet.Pos(), fnName(n), "dominated by the map lookup's ok", "a registration for an unknown transport is built")
+		}
+	}
+
+	// ---- C07.7
+	r.Rule("C07.7", "registrations are announced only through register", 1)
+	{
+		n := 0
+		for _, fn := range c.P.RepoFuncs() {
+			for range callsIn(fn, shortIs("sendToDetector")) {
+				n++
+				encl := fn
+				for encl.Parent() != nil {
+					encl = encl.Parent()
+				}
+				r.Check(encl.Name() == "NewRegisteredDecoys", "C07.7", fnName(fn)+": sendToDetector only from the closures installed by NewRegisteredDecoys", fn.Pos(), fnName(fn), "reviewed", "a detector announcement is sent outside the register/markActive path")
+			}
+		}
+		if n == 0 {
+			r.Unk("C07.7", "sendToDetector call sites", token.NoPos, "", "none found")
+		}
+	}
+}
+
+// checkFamilyRejection: NewRegistrationC2SWrapper never returns a registration whose (final) phantom is IPv4 while
+// the registrant is IPv6. Shared by C07.4 (admission) and C10.5 (the detector accepts an IPv4 phantom only with an
+// IPv4 client, so every announcement's acceptability rests on this admission test seeing the final phantom).
+func checkFamilyRejection(c *Ctx, rule string) {
+	r := c.R
+	const lib = "pkg/station/lib"
+	if w := c.fn(rule, lib, "RegistrationManager", "NewRegistrationC2SWrapper"); w != nil {
 		eachInstr(w, func(in ssa.Instruction) {
 			ret, ok := in.(*ssa.Return)
 			if !ok {
@@ -387,62 +445,14 @@ func checkC07(c *Ctx) {
 				for _, st := range fieldStores(w, "lib.DecoyRegistration", "PhantomIp") {
 					if late, _ := reach(w, in2, isInstr(st), nil, nil); late {
 						okR = false
-						r.Bad("C07.4", "NewRegistrationC2SWrapper: the phantom address is replaced after the family test", st.Pos(), fnName(w),
+						r.Bad(rule, "NewRegistrationC2SWrapper: the phantom address is replaced after the family test", st.Pos(), fnName(w),
 							"the IPv6-registrant / IPv4-phantom rejection is evaluated before the registrar's address override is applied: an override that carries an IPv4 address for an IPv6 registrant yields a registration the detector rejects (and one of a family the station may have disabled)")
 					}
 				}
 			})
-			r.Check(okR, "C07.4", "NewRegistrationC2SWrapper: no registration is returned for an IPv6 registrant with an IPv4 phantom", ret.Pos(), fnName(w), "test must-pass; its reject edge never reaches success",
+			r.Check(okR, rule, "NewRegistrationC2SWrapper: no registration is returned for an IPv6 registrant with an IPv4 phantom", ret.Pos(), fnName(w), "test must-pass; its reject edge never reaches success",
 				"a registration whose phantom is IPv4 while the registrant is IPv6 is returned: the detector rejects its announcement (IPv4 phantom needs an IPv4 client) and the session never forwards")
 		})
 	}
 
-	// ---- C07.5 error discipline
-	r.Rule("C07.5", "NewRegistration succeeds only if every derivation succeeded", 5)
-	if n := c.fn("C07.5", lib, "RegistrationManager", "NewRegistration"); n != nil {
-		var okRet *ssa.Return
-		eachInstr(n, func(in ssa.Instruction) {
-			if ret, ok := in.(*ssa.Return); ok && len(ret.Results) == 2 {
-				if cst, isC := ret.Results[1].(*ssa.Const); isC && cst.Value == nil {
-					okRet = ret
-				}
-			}
-		})
-		if okRet == nil {
-			r.Unk("C07.5", "NewRegistration: success return", n.Pos(), fnName(n), "not found")
-		} else {
-			for _, name := range []string{"Select", "getTransportParams", "getPhantomDstPort", "getTransportProto"} {
-				var call *ssa.Call
-				for _, ci := range callsIn(n, shortIs(name)) {
-					call = ci.(*ssa.Call)
-				}
-				if call == nil {
-					r.Bad("C07.5", "NewRegistration: does not call "+name, n.Pos(), fnName(n), "the registration is built without "+name)
-					continue
-				}
-				r.Check(guarded(n, okRet, errAtoms(call, true)...), "C07.5", "NewRegistration: success only if "+name+" returned no error", okRet.Pos(), fnName(n), "dominated by err == nil",
-					"the error of "+name+" is ignored: a registration with a zero/garbage phantom, port or parameters becomes usable")
-			}
-			r.Check(guarded(n, okRet, Atom{"rm.registeredDecoys.transports[c2s.GetTransport()]#1", true}), "C07.5", "NewRegistration: success only for a known transport", okRet.Pos(), fnName(n), "dominated by the map lookup's ok", "a registration for an unknown transport is built")
-		}
-	}
-
-	// ---- C07.7
-	r.Rule("C07.7", "registrations are announced only through register", 1)
-	{
-		n := 0
-		for _, fn := range c.P.RepoFuncs() {
-			for range callsIn(fn, shortIs("sendToDetector")) {
-				n++
-				encl := fn
-				for encl.Parent() != nil {
-					encl = encl.Parent()
-				}
-				r.Check(encl.Name() == "NewRegisteredDecoys", "C07.7", fnName(fn)+": sendToDetector only from the closures installed by NewRegisteredDecoys", fn.Pos(), fnName(fn), "reviewed", "a detector announcement is sent outside the register/markActive path")
-			}
-		}
-		if n == 0 {
-			r.Unk("C07.7", "sendToDetector call sites", token.NoPos, "", "none found")
-		}
-	}
 }
